@@ -1841,12 +1841,12 @@ theorem iso0 : Iso w0 := iso_init w0 rfl (by intro nd hnd; simp [w0] at hnd; sub
 theorem iso3 : Iso w3 := runPasses_iso w0 _ iso0
 
 /-- the state reached: two clients, each with a `status` command on the one node `a1`, pending on one action each; the
-    queue of `A` holds the two actions, stamped (1, arglist 0) and (2, arglist 1) -/
+    queue of `A` holds the two actions, stamped (1, arglist 1) and (2, arglist 2) -/
 theorem reached : ids w3 = [1, 2] ∧ w3.clients.map (·.fd) = [1000, 1001] ∧
     w3.clients.map (fun c => c.cmd.map fun k => k.names) = [some [['a', '1']], some [['a', '1']]] ∧
-    w3.clients.map (fun c => c.cmd.map fun k => (comIdx k.com, k.al, k.pending)) = [some (2, 0, 1), some (2, 1, 1)] ∧
-    w3.devs.map (fun nd => nd.2.acts.map fun a => (a.clientId, a.arglist)) = [[(1, 0), (2, 1)]] ∧
-    w3.nextId = 3 ∧ w3.alNext = 2 := by decide +kernel
+    w3.clients.map (fun c => c.cmd.map fun k => (comIdx k.com, k.al, k.pending)) = [some (2, 1, 1), some (2, 2, 1)] ∧
+    w3.devs.map (fun nd => nd.2.acts.map fun a => (a.clientId, a.arglist)) = [[(1, 1), (2, 2)]] ∧
+    w3.nextId = 3 ∧ w3.alNext = 3 := by decide +kernel
 
 end Two
 
